@@ -174,7 +174,14 @@ fn judge_c08(name: &str, input: &str, setting: &Setting, sab: &Sabotage) -> Case
     let (eset, e1, e2) = eff;
     let kind = classify_diff(&e1, &e2);
     let (ln, a, b) = first_diff_line(&e1, &e2).unwrap_or((0, String::new(), String::new()));
-    let sig = if align_only {
+    let sig = if align_only && name.starts_with("synth-one-item-per-line") {
+        // Inputs whose alignable items each sit on one source line, on adjacent lines: the known
+        // source-line-gap defect only shows for some item kinds here, so the kind of the first
+        // line that moves is part of the signature and a NEW kind is a new violation.
+        let item = item_kind(&a);
+        r.count(&format!("class:vertical-align:one-item-per-line:{item}:{fix}"), 1);
+        format!("nonidempotent:vertical-align:{fix}:one-item-per-line:{item}")
+    } else if align_only {
         r.count(&format!("class:vertical-align:{kind}:{fix}"), 1);
         format!("nonidempotent:vertical-align:{fix}")
     } else {
@@ -204,6 +211,36 @@ fn judge_c08(name: &str, input: &str, setting: &Setting, sab: &Sabotage) -> Case
         },
     );
     r
+}
+
+/// Non-vacuity of the synthetic arm: pairs of adjacent source lines `inst LONG: M … (p: e, …);`
+/// (named connections: the formatter breaks the list) / `inst SHORT…;` with a shorter name and
+/// no named list (stays on one line).
+fn breaking_inst_pairs(text: &str) -> i64 {
+    let lines: Vec<&str> = text.lines().map(|l| l.trim()).collect();
+    let name_len = |l: &str| l.strip_prefix("inst ").map(|r| r.split(':').next().unwrap_or("").trim().len());
+    let mut n = 0;
+    for w in lines.windows(2) {
+        if let (Some(a), Some(b)) = (name_len(w[0]), name_len(w[1])) {
+            let first_breaks = w[0].rfind('(').is_some_and(|p| w[0][p..].contains(": "));
+            let second_flat = !w[1].rfind('(').is_some_and(|p| w[1][p..].contains(": ")) && !w[1].contains("#(");
+            if first_breaks && second_flat && b < a {
+                n += 1;
+            }
+        }
+    }
+    n
+}
+
+/// Kind of alignable item a formatted line starts (first keyword), for signatures.
+fn item_kind(line: &str) -> String {
+    let w: String = line.trim_start().chars().take_while(|c| c.is_ascii_alphanumeric() || *c == '_').collect();
+    match w.as_str() {
+        "inst" | "var" | "let" | "const" | "param" | "assign" | "modport" | "struct" | "enum" | "case" | "switch" | "default" | "function" | "import"
+        | "always_ff" | "always_comb" | "module" | "interface" | "package" | "type" | "connect" | "bind" | "if" | "for" => w,
+        "" => "punctuation-or-number".to_string(),
+        _ => "member-or-statement".to_string(),
+    }
 }
 
 /// Coarse class of an idempotence failure: do the two outputs differ only in
@@ -434,8 +471,19 @@ pub fn gen_input(corpus: &[vcommon::corpus::CorpusFile], seed: u64, tag: &str, j
         let f = &corpus[j as usize];
         return (format!("corpus:{}:{}", f.kind, f.name), f.text.clone());
     }
-    let f = &corpus[((j - n) % n) as usize];
     let mut rng = Rng::for_case(seed, tag, j);
+    // every second generated input is a synthetic module of adjacent alignable items with varied
+    // name lengths, one item per source line (alignsyn.rs); half of those keep that layout
+    let m = j - n;
+    if m % 2 == 1 {
+        let text = crate::alignsyn::module(&mut rng);
+        if (m / 2) % 2 == 0 {
+            return (format!("synth-one-item-per-line#{m}"), text);
+        }
+        let o = LayoutOpts::random(&mut rng);
+        return (format!("synth+layout#{m}"), layout(&text, &mut rng, &o));
+    }
+    let f = &corpus[((m / 2) % n) as usize];
     let mut text = f.text.clone();
     let mut ops = vec![];
     if rng.chance(3, 4) {
@@ -459,7 +507,7 @@ pub fn gen_input(corpus: &[vcommon::corpus::CorpusFile], seed: u64, tag: &str, j
         text = layout(&text, &mut rng, &o);
         ops.push("layout");
     }
-    (format!("{}:{}:{}#{}", ops.join("+"), f.kind, f.name, (j - n) / n), text)
+    (format!("{}:{}:{}#{}", ops.join("+"), f.kind, f.name, m / (2 * n)), text)
 }
 
 /// The `k` settings tried for input `j` (first one is the default for as-is corpus files).
@@ -546,7 +594,7 @@ pub fn main(args: Args) {
 
     let corpus: Arc<Vec<vcommon::corpus::CorpusFile>> = Arc::new(vcommon::corpus::all_veryl());
     // sized for a shared, heavily loaded 16-core machine (5-15 evaluations/s): quick 2-4 min, thorough ~30-40 min
-    let n_inputs = args.budget("inputs", if is08 { 400 } else { 360 }, if is08 { 2000 } else { 1500 });
+    let n_inputs = args.budget("inputs", if is08 { 1000 } else { 700 }, if is08 { 2400 } else { 1800 });
     let k = args.budget("settings", if is08 { 3 } else { 2 }, if is08 { 5 } else { 4 });
     let seed = args.seed;
     let total = n_inputs * k;
@@ -574,6 +622,14 @@ pub fn main(args: Args) {
             if !as_is {
                 r.count("mutated_input_cases", 1);
             }
+            if name.starts_with("synth") {
+                let parsed = r.counts.iter().any(|(k, _)| k == "parsed_inputs");
+                r.count(if parsed { "synthetic_inputs_parsed" } else { "synthetic_inputs_rejected_by_parser" }, 1);
+                if parsed && name.starts_with("synth-one-item-per-line") {
+                    r.count("synthetic_one_item_per_line_cases", 1);
+                    r.count("synthetic_breaking_inst_followed_by_shorter_one_line_inst", breaking_inst_pairs(&text));
+                }
+            }
             r
         },
         move |i, r| match r {
@@ -592,6 +648,9 @@ pub fn main(args: Args) {
             ("settings", 40),
             ("crlf_input_cases", 8),
             ("distinct_nontrivial", 250),
+            ("synthetic_inputs_parsed", 300),
+            ("synthetic_one_item_per_line_cases", 150),
+            ("synthetic_breaking_inst_followed_by_shorter_one_line_inst", 25),
         ]);
     } else {
         run.finish(&[
